@@ -364,7 +364,11 @@ func (m *Multi) Subseq(start, end int) (*Multi, error) {
 	var ns []seq.Sequence
 
 	for _, r := range m.Seq {
-		rs := reflect.New(reflect.TypeOf(r)).Interface().(sequtils.Sliceable)
+		t := reflect.TypeOf(r)
+		if t.Kind() == reflect.Ptr {
+			t = t.Elem()
+		}
+		rs := reflect.New(t).Interface().(sequtils.Sliceable)
 		err := sequtils.Truncate(rs, r, start, end)
 		if err != nil {
 			return nil, err
